@@ -478,7 +478,16 @@ class SStr:
         c = self.concrete()
         if c is not None:
             return SStr([c.lower()])
-        return SStr([Fn('lower', self, _case_lang(self.lang(), str.lower))])
+        out = []
+        upper = L('.*[A-Z\u00c0-\u00de\u0100-\uffff].*')
+        for p in self.parts:
+            if isinstance(p, str):
+                out.append(p.lower())
+            elif p.lang.intersect(upper).is_empty():
+                out.append(p)                 # no cased character that lower() could change
+            else:
+                out.append(Fn('lower', SStr([p]), _case_lang(p.lang, str.lower)))
+        return SStr(out)
 
     def upper(self):
         c = self.concrete()
@@ -594,6 +603,66 @@ class SStr:
             return SStr(right)
         l2, _r2 = split_at(cut_at(hi))
         return SStr(l2[len(left):]) if len(l2) >= len(left) else SStr()
+
+
+def regex_chars(pattern, flags=0):
+    """characters (of the symbolic alphabet) that can occur inside a match of the pattern"""
+    a = alpha()
+    tree = rx.parse(pattern, flags)
+    mask = [0]
+
+    def walk(seq):
+        for op, av in seq:
+            ops = str(op)
+            if ops in ('LITERAL', 'NOT_LITERAL', 'ANY', 'IN'):
+                mask[0] |= a.leaf((op, av), flags)
+            elif ops == 'SUBPATTERN':
+                walk(av[3])
+            elif ops == 'BRANCH':
+                for alt in av[1]:
+                    walk(alt)
+            elif ops in ('MAX_REPEAT', 'MIN_REPEAT'):
+                walk(av[2])
+            elif ops == 'AT':
+                pass
+            else:
+                raise Undecided('regex construct %s' % ops)
+    walk(tree)
+    return mask[0]
+
+
+def regex_split(pattern, flags, s, maxsplit=0):
+    """re.split on a symbolic string: the matches must lie inside literal pieces; the other pieces must be free of
+    every character a match can contain (so that no match starts, ends or lies in them)"""
+    s = lift(s)
+    a = alpha()
+    mask = regex_chars(pattern, flags)
+    if re.compile(pattern, flags).groups:
+        raise Undecided('split with capturing groups')
+    bad = rx.from_function(a, [], 0, lambda q, sym: 1 if (q == 1 or mask >> sym & 1) else 0, lambda q: q == 1)
+    out, cur = [], []
+    cre = re.compile(pattern, flags)
+    n = 0
+    for p in s.parts:
+        if isinstance(p, str):
+            pos = 0
+            for m in cre.finditer(p):
+                if m.end() == m.start():
+                    continue
+                if maxsplit and n >= maxsplit:
+                    break
+                cur.append(p[pos:m.start()])
+                out.append(SStr(cur))
+                cur = []
+                pos = m.end()
+                n += 1
+            cur.append(p[pos:])
+        else:
+            if not p.lang.intersect(bad).is_empty():
+                raise Undecided('the piece %r may contain a character of the separator pattern %r' % (p, pattern))
+            cur.append(p)
+    out.append(SStr(cur))
+    return out
 
 
 def lift(v):
